@@ -124,7 +124,7 @@ impl Scenario for C19 {
                 9 | 10 => "exit",
                 11 | 12 => "mon_exit",
                 13 => if r.chance(1, 2) { "rpc_reply" } else { "rpc_near_miss" },
-                14 => *r.pick(&["link", "group_leader", "unknown"]),
+                14 => *r.pick(&["link", "group_leader", "unknown", "send_near_miss", "send_near_miss", "exit_near_miss"]),
                 15 | 16 => "tick",
                 17 => "junk_garbage",
                 18 => "junk_notcontrol",
@@ -200,7 +200,7 @@ impl Scenario for C19 {
             components_stubbed: &["TCP (SimNet)", "EPMD (stub)", "remote node (scripted peer, independent encoder)"],
             assumptions: &["mid-frame delays stay below the read timeout; only idle gaps are long", "the peer's ticks are what a conforming OTP node sends (zero-length frames at its tick period)"],
             fault_prefixes: &["fault.", "net."],
-            expected_probes: &["probe.c19.delivered_send", "probe.c19.delivered_reg_send", "probe.c19.delivered_exit", "probe.c19.delivered_mon_exit", "probe.c19.rpc_reply_delivered", "probe.c19.dropped_unknown_recipient", "probe.c19.survived_junk", "probe.c19.survived_quiet_period", "probe.c19.deregistered_after_fatal", "probe.c19.reconnected", "probe.c19.checkpoint_ok", "probe.c19.near_miss_not_taken_as_reply", "probe.c19.killed_process_prefix_ok", "probe.c19.long_junk_run", "probe.c19.burst_above_mailbox_capacity", "probe.c19.local_operation_failed_without_io", "probe.c19.name_changed_hands"],
+            expected_probes: &["probe.c19.delivered_send", "probe.c19.delivered_reg_send", "probe.c19.delivered_exit", "probe.c19.delivered_mon_exit", "probe.c19.rpc_reply_delivered", "probe.c19.dropped_unknown_recipient", "probe.c19.survived_junk", "probe.c19.survived_quiet_period", "probe.c19.deregistered_after_fatal", "probe.c19.reconnected", "probe.c19.checkpoint_ok", "probe.c19.near_miss_not_taken_as_reply", "probe.c19.killed_process_prefix_ok", "probe.c19.long_junk_run", "probe.c19.burst_above_mailbox_capacity", "probe.c19.local_operation_failed_without_io", "probe.c19.name_changed_hands", "probe.c19.notices_behind_a_full_mailbox"],
         }
     }
 }
@@ -270,6 +270,22 @@ fn build_frame(p: &Plan, k: usize, f: &InFrame, pids: &[Val], rpc_from: &Option<
                 }
             }
             wire::pass_through(&Val::tuple(vec![Val::int(6), peer_pid(1), Val::atom(""), Val::Atom(name)]), Some(&pl))
+        }
+        "send_near_miss" | "exit_near_miss" => {
+            // an identifier this node never issued: a live process's with one field changed (creation 0,
+            // creation + 1, serial + 1, id + 2^15). Nobody may receive it.
+            let Val::Pid { node, id, serial, creation } = target_pid(f.target) else { return None };
+            let to = match f.seed % 4 {
+                0 if creation != 0 => Val::Pid { node, id, serial, creation: 0 },
+                0 | 1 => Val::Pid { node, id, serial, creation: creation.wrapping_add(1) },
+                2 => Val::Pid { node, id, serial: serial.wrapping_add(1), creation },
+                _ => Val::Pid { node, id: id.wrapping_add(1 << 15), serial, creation },
+            };
+            if f.kind == "send_near_miss" {
+                wire::pass_through(&Val::tuple(vec![Val::int(2), Val::atom(""), to]), Some(&payload("near_miss", k, f.seed)))
+            } else {
+                wire::pass_through(&Val::tuple(vec![Val::int(3), peer_pid(2), to, payload("near_miss_exit", k, f.seed)]), None)
+            }
         }
         "exit" => {
             let reason = payload("exit", k, f.seed);
@@ -476,6 +492,16 @@ async fn peer_conn(
                         exp.lock().unwrap().per_proc[t].push(Got::Regular(pl.clone()));
                         let frame = wire::frame4(&wire::pass_through(&Val::tuple(vec![Val::int(2), Val::atom(""), pids[t].clone()]), Some(&pl)));
                         let _ = tx.send(Cmd::Frame(frame));
+                    }
+                    if f.seed & 0x100 != 0 {
+                        // exit and monitor notices right behind the burst: they arrive while the mailbox is full
+                        for tail_kind in ["exit", "mon_exit"] {
+                            let tf = InFrame { kind: tail_kind.to_string(), target: f.target, seed: f.seed ^ 0x55, gap_ms: 0 };
+                            if let Some(frame) = wire::with_legacy_ids(p.legacy_ids, || build_frame(&p, k, &tf, &pids, &None, &mut exp.lock().unwrap())) {
+                                let _ = tx.send(Cmd::Frame(frame));
+                            }
+                        }
+                        w.stat("probe.c19.notices_behind_a_full_mailbox");
                     }
                     w.stat("probe.c19.burst_above_mailbox_capacity");
                     w.ev(format!("peer: burst of {} messages to process {}", n, t));
